@@ -367,6 +367,24 @@ Model/SrcPreludeG.v; the text generated for every other unit is untouched):
   translated function is its pair.  A local first bound by `d = {}` is a dict of lists (type `sdict` = association list in
   insertion order): `d.setdefault('k', [])` = py_sd_setdefault, `d['k'].append(e)` = py_sd_append (KeyError), rewritten to
   assignments of d before translation (the names __g_* are the translator's).
+* netaddr/eui/__init__.py -> pysrc_euig_gen.v (C19: the identifier classes).  Types: `oui` / `iab` = an OUI / IAB object, represented
+  by its integer (as for CTOR_AS_ARG): `isinstance(x, C)` on it is decided by the class hierarchy, `x._value` is the integer;
+  `orec` = a registration record (the dict with the six constant keys of SRCG_REC_KEYS) as the tuple of its values in that order --
+  what the SRCF unit's _parse_data answers.  Unit-entry pseudo-parameters: "self.<attr>": <type> makes that attribute a leading
+  parameter; "self.*": "a,b" declares a constructor-like method: the listed attributes are locals (unbound at entry), the method
+  must not return a value and answers the tuple of their final values; a parameter type "tup:t1,t2" is a tuple.  `isinstance(<int /
+  str parameter>, str)` and `_is_int(x)` are decided by the declared type; `DictDotLookup(d)` (the attribute view of a dict) is d;
+  `'<text>%s<text>' % self` = the text around the translated __str__; `'<text>%o' % e` = py_fmt_oct; `'<text>%x' % e` = py_fmt_hex.
+  The constructors OUI.__init__ / IAB.__init__ (variant `:int`) are first rewritten by FnG.prepare_ctor (its docstring lists the
+  rewrites): super().__init__() inlined, the function-level `from netaddr.eui import ieee` dropped with `ieee.OUI_INDEX` /
+  `ieee.IAB_INDEX` read as the Section variables of those names (type eindex = the dict's items; `k in D` = py_eidx_mem, `D[k]` =
+  py_eidx_get with KeyError; ieee.py must bind the name once by `NAME = {}`), the file object dropped with `fh.seek(o); x =
+  fh.read(n).decode('UTF-8')` (adjacent statements) = REGISTRY_FILE '<file>' o n (a Section variable; UnicodeDecodeError is not
+  modelled), the record dict literal / `self.record['k'] = e` as tuple construction / py_rec_set, the statement
+  `self._parse_data(..)` as the assignment of what the translated callee answers (checked: the callee touches the object only
+  through self.records.append(record) as its last statement, resp. through self.record[..] = ..), `for (a, b) in e` unpacked in
+  the body, `a, b = <method answering a tuple of ints>` = py_pair_of_list (ValueError), a call of a SRCF_CLASSMETHODS classmethod
+  through self with keyword arguments.
 """
 import ast
 import os
@@ -7642,18 +7660,47 @@ SRCG_UNITS = [
     # harness/gen/iana.py -> Gen/iana_gen.v)
     ("netaddr/ip/iana.py", "pysrc_iana_gen.v", "iana_", " Base.PyStr Model.Iana Model.SrcPreludeSRCE Model.SrcPreludeG",
      [(None, "_within_bounds", {"ip": "obj", "ip_range": "ikey"}), (None, "query", {"ip_addr": "obj"})]),
+    # C19 / C08: the small methods of the identifier classes of netaddr/eui/__init__.py.  `oui` / `iab` = an OUI / IAB object (the
+    # integer it stands for, as for CTOR_AS_ARG); `orec` = a registration record, the dict with the six constant keys idx, oui |
+    # iab, org, address, offset, size as the tuple of their values in that order (what the translated _parse_data answers); the
+    # pseudo-parameter "self.<attr>" makes that attribute of the receiver a leading parameter; "self.*" lists the attributes a
+    # constructor-like method assigns (it answers the tuple of their final values)
+    ("netaddr/eui/__init__.py", "pysrc_euig_gen.v", "", " Base.PyStr Model.SrcPreludeStr Model.SrcPreludeSRCE Model.SrcPreludeViews Model.SrcPreludeG",
+     [(c, "%s:%s" % (m, c.lower()), {"other": c.lower()}) for c in ("OUI", "IAB") for m in ("__eq__", "__ne__")] +
+     [("OUI", "reg_count", {"self.records": "list orec"}), ("OUI", "registration", {"index": "int", "self.records": "list orec"}),
+      ("OUI", "__getstate__", {"self.records": "list orec"}), ("OUI", "__setstate__", {"state": "tup:int,list orec", "self.*": "_value,records"}),
+      ("IAB", "registration", {"self.record": "orec"}), ("IAB", "__getstate__", {"self.record": "orec"}),
+      ("IAB", "__setstate__", {"state": "tup:int,orec", "self.*": "_value,record"}),
+      ("OUI", "__repr__", {}), ("IAB", "__repr__", {}), ("BaseIdentifier", "__hex__", {}), ("BaseIdentifier", "__oct__", {}),
+      # the constructors on an int argument: the index dicts ieee.OUI_INDEX / ieee.IAB_INDEX and the registry files are Section
+      # variables of the generated file (SRCG_EUI_PREAMBLE)
+      ("OUI", "__init__:int", {"oui": "int", "self.*": "_value,records"}),
+      ("IAB", "__init__:int", {"iab": "int", "strict": "bool", "self.*": "_value,record"})]),
 ]
+# the constant keys of a registration record, in the order of the `orec` tuple (= the dict literal the class writes), per class
+SRCG_REC_KEYS = {"OUI": ("idx", "oui", "org", "address", "offset", "size"), "IAB": ("idx", "iab", "org", "address", "offset", "size")}
+SRCG_REC_TYPES = ("int", "str", "str", ("list", "str"), "int", "int")
+SRCG_INDEX = {"OUI_INDEX": "netaddr/eui/ieee.py", "IAB_INDEX": "netaddr/eui/ieee.py"}      # module-level `NAME = {}` of that file
+STATE["BaseIdentifier"] = ("v",)
 UNITS = UNITS + SRCG_UNITS
 FILES = FILES + tuple(u[1] for u in SRCG_UNITS)
 SRCG_OUT = tuple(u[1] for u in SRCG_UNITS)
-SRCG_TYPES = {"ikey": "irow", "irec": "irow", "sdict": "sdict"}
+SRCG_TYPES = {"ikey": "irow", "irec": "irow", "sdict": "sdict", "oui": "Z", "iab": "Z",
+              "orec": "(Z * string * string * (list string) * Z * Z)", "eindex": "eindex", "zpair": "(Z * Z)"}
+SRCG_IDCLASS = {"oui": "OUI", "iab": "IAB"}
 COQTY.update(SRCG_TYPES)
 SRCG_RESERVED = set("irow ikeyview IKNet IKRange IKAddr py_ikey_view sdict py_sd_new py_sd_setdefault py_sd_append IANA_INFO "
-                    "py_truthy".split())
+                    "py_truthy py_fmt_oct py_fmt_hex py_index string append eindex py_eidx_mem py_eidx_get OUI_INDEX IAB_INDEX REGISTRY_FILE "
+                    "py_pair_of_list py_rec_set".split())
 UNIT_PREAMBLE["pysrc_iana_gen.v"] = (
     "(* IANA_INFO[name] for the four dictionaries the module creates: the rows (key object, record) in insertion order *)\n"
     "Section WithTable.\nVariable IANA_INFO : string -> list irow.\n")
 UNIT_POSTAMBLE["pysrc_iana_gen.v"] = "\nEnd WithTable.\n"
+UNIT_PREAMBLE["pysrc_euig_gen.v"] = (
+    "(* the two index dicts of netaddr/eui/ieee.py (identifier -> its rows (offset, size), insertion order) and the registry files:\n"
+    "   REGISTRY_FILE name offset size = what `fh.seek(offset); fh.read(size).decode('UTF-8')` answers on the package file `name` *)\n"
+    "Section WithRegistry.\nVariable OUI_INDEX IAB_INDEX : eindex.\nVariable REGISTRY_FILE : string -> Z -> Z -> string.\n")
+UNIT_POSTAMBLE["pysrc_euig_gen.v"] = "\nEnd WithRegistry.\n"
 _is_value_before_SRCG = is_value
 
 
@@ -7742,7 +7789,176 @@ class FnG(FnE):
         f = super().prepare(f)
         if any(isinstance(n, ast.Name) and n.id.startswith("__g_") for n in ast.walk(f)):
             bad(f, "a name starting with __g_ (reserved for the translator)")
-        return ast.fix_missing_locations(SrcgPrepare(self, f).visit(copy.deepcopy(f)))
+        f = SrcgPrepare(self, f).visit(copy.deepcopy(f))
+        attrs = self.state_attrs()
+        if attrs and self.pyname == "__init__":
+            f = self.prepare_ctor(f)
+        if attrs:
+            # a constructor-like method ("self.*"): the listed attributes are locals self__<attr>, unbound at entry; the method must
+            # not return a value; it answers the tuple of their final values
+            if any(isinstance(n, ast.Return) and n.value is not None for n in ast.walk(f)):
+                bad(f, "a method declared with \"self.*\" returns a value")
+
+            class S(ast.NodeTransformer):
+                def visit_Attribute(self, n):
+                    if isinstance(n.value, ast.Name) and n.value.id == "self" and n.attr in attrs:
+                        return ast.copy_location(ast.Name(id="self__" + n.attr, ctx=n.ctx), n)
+                    return self.generic_visit(n)
+
+                def visit_Return(self, n):
+                    return ast.copy_location(ast.Return(value=final(n)), n)
+
+            def final(at):
+                xs = [ast.copy_location(ast.Name(id="self__" + a, ctx=ast.Load()), at) for a in attrs]
+                return xs[0] if len(xs) == 1 else ast.copy_location(ast.Tuple(elts=xs, ctx=ast.Load()), at)
+            f = S().visit(f)
+            if not isinstance(f.body[-1], (ast.Return, ast.Raise)):
+                ret = ast.copy_location(ast.Return(value=final(f.body[-1])), f.body[-1])
+                ret.lineno = ret.end_lineno = f.end_lineno
+                f.body.append(ret)
+        return ast.fix_missing_locations(f)
+
+    def __init__(self, tr, recv, name, ptypes):
+        self.g_types = dict(ptypes)
+        super().__init__(tr, recv, name, {k: v for k, v in ptypes.items() if not k.startswith("self.")})
+
+    def unit_init(self, env):
+        """pseudo-parameters "self.<attr>" (the attribute is a leading parameter of the method), parameter types "tup:t1,t2,.." """
+        super().unit_init(env)
+        lead = []
+        for key, ty in getattr(self, "g_types", {}).items():
+            if key.startswith("self.") and key != "self.*":
+                cn = self.coqname(self.f, "self_" + key[5:])
+                self.attrs[key] = (parse_type(ty), cn)
+                lead.append((cn, parse_type(ty)))
+        self.params[:0] = lead
+        for i, (cn, ty) in enumerate(self.params):
+            if isinstance(ty, str) and ty.startswith("tup:"):
+                ty = ("tup", tuple(parse_type(x) for x in ty[4:].split(",")))
+                self.params[i] = (cn, ty)
+                for key, val in env.items():
+                    if not key.startswith("@") and val[1] == cn:
+                        env[key] = (ty, cn)
+
+    def prepare_ctor(self, f):
+        """the constructor of an identifier class (OUI / IAB), rewritten into statements the translator knows:
+        `super(C, self).__init__()` -> the body of the base class's __init__ (constant attribute assignments);
+        `from netaddr.eui import ieee` -> dropped (ieee.OUI_INDEX / ieee.IAB_INDEX are table symbols, see call / rhs);
+        `fh = _importlib_resources.open_binary(__package__, '<file>')` and `fh.close()` -> dropped, and
+        `fh.seek(o); x = fh.read(n).decode('UTF-8')` (adjacent) -> x = __g_file_read('<file>', o, n); any other use of fh is rejected;
+        `self.record = {<the six constant keys>}` -> self.record = __g_rec_new(<values in key order>);
+        `self.record['k'] = e` -> self.record = __g_rec_set(self.record, 'k', e);
+        the statement `self._parse_data(a, b, c)` -> OUI: self.records = self.records + [__g_parse_data(a, b, c)] (the callee's only
+        effect is its last statement self.records.append(record): it answers that record); IAB: self.record = __g_parse_data(a, b, c)
+        (the callee's only effect are its assignments self.record[..] = ..: it answers the new record);
+        `for (a, b) in e` -> `for a__b__N in e: (a, b) = a__b__N`."""
+        import copy
+        fn, cls, files, n = self, self.recv, {}, [0]
+        keys = SRCG_REC_KEYS.get(cls)
+        if keys is None:
+            bad(f, "constructor of %s" % cls)
+
+        def attr(name, ctx, at):
+            return ast.copy_location(ast.Attribute(value=ast.copy_location(ast.Name(id="self", ctx=ast.Load()), at), attr=name, ctx=ctx()), at)
+
+        def walk(stmts):
+            out, i = [], 0
+            while i < len(stmts):
+                st, nxt = stmts[i], stmts[i + 1] if i + 1 < len(stmts) else None
+                i += 1
+                v = st.value if isinstance(st, ast.Expr) else None
+                if (isinstance(v, ast.Call) and isinstance(v.func, ast.Attribute) and v.func.attr == "__init__" and isinstance(v.func.value, ast.Call)
+                        and dotted(v.func.value.func) == "super" and not fn.mod.toplevel("super") and not v.args and not v.keywords
+                        and [dotted(x) for x in v.func.value.args] == [fn.owner, "self"]):
+                    bases = [dotted(b) for b in fn.mod.classes[fn.owner].bases]
+                    r = fn.mod.lookup(bases[0], "__init__") if len(bases) == 1 else None
+                    body = [x for x in (r[1].body if r else []) if not (isinstance(x, ast.Expr) and isinstance(x.value, ast.Constant))]
+                    if not r or len(r[1].args.args) != 1 or r[1].args.args[0].arg != "self" or any(
+                            not (isinstance(x, ast.Assign) and len(x.targets) == 1 and (dotted(x.targets[0]) or "").startswith("self.")
+                                 and isinstance(x.value, ast.Constant)) for x in body):
+                        bad(st, "super().__init__() of a base class whose __init__ is not a list of constant attribute assignments")
+                    out += copy.deepcopy(body)
+                    continue
+                if isinstance(st, ast.ImportFrom):
+                    if st.module != "netaddr.eui" or [(a.name, a.asname) for a in st.names] != [("ieee", None)] or st.level:
+                        bad(st, "import inside a function other than `from netaddr.eui import ieee`")
+                    continue
+                if (isinstance(st, ast.Assign) and len(st.targets) == 1 and isinstance(st.targets[0], ast.Name) and isinstance(st.value, ast.Call)
+                        and dotted(st.value.func) == "_importlib_resources.open_binary" and len(st.value.args) == 2 and not st.value.keywords
+                        and dotted(st.value.args[0]) == "__package__" and isinstance(st.value.args[1], ast.Constant)
+                        and isinstance(st.value.args[1].value, str)
+                        and fn.mod.imports.get("_importlib_resources") == "netaddr.compat._importlib_resources"):
+                    files[st.targets[0].id] = st.value.args[1]
+                    continue
+                if isinstance(v, ast.Call) and isinstance(v.func, ast.Attribute) and isinstance(v.func.value, ast.Name) and v.func.value.id in files:
+                    fh = v.func.value.id
+                    if v.func.attr == "close" and not v.args and not v.keywords:
+                        continue
+                    r = nxt.value if isinstance(nxt, ast.Assign) and len(nxt.targets) == 1 and isinstance(nxt.targets[0], ast.Name) else None
+                    if (v.func.attr == "seek" and len(v.args) == 1 and not v.keywords and isinstance(r, ast.Call) and isinstance(r.func, ast.Attribute)
+                            and r.func.attr == "decode" and len(r.args) == 1 and not r.keywords and isinstance(r.args[0], ast.Constant)
+                            and r.args[0].value == "UTF-8" and isinstance(r.func.value, ast.Call) and dotted(r.func.value.func) == fh + ".read"
+                            and len(r.func.value.args) == 1 and not r.func.value.keywords):
+                        nxt.value = srcg_pseudo("__g_file_read", [files[fh], v.args[0], r.func.value.args[0]], r)
+                        continue
+                    bad(st, "use of the file %s other than seek(o); x = read(n).decode('UTF-8') / close()" % fh)
+                if (isinstance(st, ast.Assign) and len(st.targets) == 1 and dotted(st.targets[0]) == "self.record" and isinstance(st.value, ast.Dict)):
+                    d = st.value
+                    if [kk.value if isinstance(kk, ast.Constant) else None for kk in d.keys] != list(keys):
+                        bad(st, "record literal whose keys are not %s" % (keys,))
+                    st.value = srcg_pseudo("__g_rec_new", d.values, d)
+                    out.append(st)
+                    continue
+                if (isinstance(st, ast.Assign) and len(st.targets) == 1 and isinstance(st.targets[0], ast.Subscript)
+                        and dotted(st.targets[0].value) == "self.record" and isinstance(st.targets[0].slice, ast.Constant)):
+                    out.append(ast.copy_location(ast.Assign(targets=[attr("record", ast.Store, st)], value=srcg_pseudo(
+                        "__g_rec_set", [attr("record", ast.Load, st), st.targets[0].slice, st.value], st)), st))
+                    continue
+                if isinstance(v, ast.Call) and dotted(v.func) == "self._parse_data" and not v.keywords:
+                    fn.check_parse_data(st, cls)
+                    call = srcg_pseudo("__g_parse_data", [attr("_value", ast.Load, st)] + ([attr("record", ast.Load, st)] if cls == "IAB" else [])
+                                       + v.args, v)          # (the state the callee reads is named, so that a loop carries it)
+                    if cls == "OUI":
+                        call = ast.copy_location(ast.BinOp(left=attr("records", ast.Load, st), op=ast.Add(),
+                                                           right=ast.copy_location(ast.List(elts=[call], ctx=ast.Load()), st)), st)
+                    out.append(ast.copy_location(ast.Assign(targets=[attr("records" if cls == "OUI" else "record", ast.Store, st)], value=call), st))
+                    continue
+                if isinstance(st, ast.For) and isinstance(st.target, ast.Tuple) and all(isinstance(x, ast.Name) for x in st.target.elts):
+                    n[0] += 1
+                    item = "__".join([x.id for x in st.target.elts] + [str(n[0])])
+                    unpack = ast.copy_location(ast.Assign(targets=[st.target], value=ast.copy_location(ast.Name(id=item, ctx=ast.Load()), st.target)), st.target)
+                    st.target = ast.copy_location(ast.Name(id=item, ctx=ast.Store()), st.target)
+                    st.body = [unpack] + st.body
+                for fld in ("body", "orelse", "finalbody"):
+                    if isinstance(getattr(st, fld, None), list) and not isinstance(st, (ast.FunctionDef, ast.ClassDef)):
+                        setattr(st, fld, walk(getattr(st, fld)) or ([ast.copy_location(ast.Pass(), st)] if fld == "body" else []))
+                out.append(st)
+            return out
+        f.body = walk(f.body)
+        if any(isinstance(x, ast.Name) and x.id in files for x in ast.walk(f)):
+            bad(f, "the file object is used in a way the translator does not read")
+        return f
+
+    def check_parse_data(self, node, cls):
+        """the effect of <cls>._parse_data on the object as the reading above needs it (the same reading as the SRCF unit that translates it)"""
+        r = self.mod.lookup(cls, "_parse_data")
+        g = r[1] if r and not r[2] else None
+        if g is None:
+            bad(node, "%s._parse_data not found" % cls)
+        sets = [x for x in ast.walk(g) if isinstance(x, ast.Attribute) and isinstance(x.value, ast.Name) and x.value.id == "self"]
+        if cls == "OUI":
+            last = g.body[-1].value if isinstance(g.body[-1], ast.Expr) else None
+            ok = (isinstance(last, ast.Call) and dotted(last.func) == "self.records.append" and len(last.args) == 1 and not last.keywords
+                  and all(x.attr in ("records", "_value") or x is last.func.value for x in sets) and sum(x.attr == "records" for x in sets) == 1
+                  and all(isinstance(x.ctx, ast.Load) for x in sets))
+        else:
+            ok = all(x.attr in ("record", "_value") and isinstance(x.ctx, ast.Load) for x in sets) and not any(
+                isinstance(x, ast.Return) and x.value is not None for x in ast.walk(g))
+        if not ok:
+            bad(node, "%s._parse_data touches the object in a way the translator does not read" % cls)
+
+    def state_attrs(self):
+        return [a for a in getattr(self, "g_types", {}).get("self.*", "").split(",") if a]
 
     def coqname(self, node, name):
         if name in SRCG_RESERVED:
@@ -7811,6 +8027,22 @@ class FnG(FnE):
                 return self.block((s.body if yes else s.orelse) + rest, env, k, after)
         return super().if_(s, rest, env, k, after)
 
+    def isinstance_(self, s, t, neg, rest, env, k, after):
+        x = t.args[0].id if len(t.args) == 2 and isinstance(t.args[0], ast.Name) else None
+        if x is not None and env.get(x, ("",))[0] in SRCG_IDCLASS and not t.keywords and isinstance(t.args[1], ast.Name):
+            cls = SRCG_IDCLASS[env[x][0]]           # a parameter declared to be an OUI / IAB object: decided by the class hierarchy
+            if cls not in self.mod.classes or t.args[1].id not in self.mod.classes or t.args[1].id in env:
+                bad(s, "isinstance against %s, which is not a class of this module" % t.args[1].id)
+            isa = t.args[1].id in self.mod.ancestors(cls)
+            if not isa and cls in self.mod.ancestors(t.args[1].id):
+                bad(s, "isinstance against %s, a subclass of %s" % (t.args[1].id, cls))
+            return self.block((s.body if isa != neg else s.orelse) + rest, env, k, after)
+        if (x is not None and env.get(x, ("",))[0] in ("int", "str") and not t.keywords and isinstance(t.args[1], ast.Name) and t.args[1].id == "str"
+                and "str" not in env and not self.mod.toplevel("str") and x in [a.arg for a in self.f.args.args]):
+            isa = env[x][0] == "str"                 # isinstance(<parameter declared int / str>, str): decided by the declared type
+            return self.block((s.body if isa != neg else s.orelse) + rest, env, k, after)
+        return super().isinstance_(s, t, neg, rest, env, k, after)
+
     def opnd_of(self, node, ty, t):
         """the operand term of an IPAddress / IPNetwork / IPRange valued expression"""
         if ty == "obj":
@@ -7848,7 +8080,74 @@ class FnG(FnE):
                 cls, state = self.state_of(node, *l)         # x == y / x != y: the translated __eq__ / __ne__ of x's class
                 return self.generated(node, cls, "__eq__" if isinstance(node.ops[0], ast.Eq) else "__ne__", state,
                                       [("operand", self.opnd_of(node, *r))])
+        if isinstance(node, ast.Attribute) and dotted(node) in ("ieee." + x for x in SRCG_INDEX) and "ieee" not in env:
+            return ("eindex", self.index_symbol(node))
+        if (isinstance(node, ast.Compare) and len(node.ops) == 1 and isinstance(node.ops[0], ast.In)
+                and dotted(node.comparators[0]) in ("ieee." + x for x in SRCG_INDEX) and "ieee" not in env):
+            return ("bool", "(py_eidx_mem %s %s)" % (self.index_symbol(node.comparators[0]), self.int_(node.left, env)))
+        if (isinstance(node, ast.Subscript) and not isinstance(node.slice, ast.Slice) and dotted(node.value) in ("ieee." + x for x in SRCG_INDEX)
+                and "ieee" not in env):
+            return ("out", ("list", Cell("zpair")), "(py_eidx_get %s %s)" % (self.index_symbol(node.value), self.int_(node.slice, env)))
+        if (isinstance(node, ast.Attribute) and node.attr == "_value" and isinstance(node.value, ast.Name)
+                and env.get(node.value.id, ("",))[0] in SRCG_IDCLASS):
+            return ("int", env[node.value.id][1])           # x._value of an OUI / IAB object x (represented by that integer)
+        if (isinstance(node, ast.BinOp) and isinstance(node.op, ast.Mod) and isinstance(node.left, ast.Constant) and isinstance(node.left.value, str)
+                and isinstance(node.right, ast.Name) and node.right.id == "self" and "self" not in env and self.recv
+                and re.fullmatch(r"[ -$&-~]*%s[ -$&-~]*", node.left.value) and '"' not in node.left.value):
+            a, b = node.left.value.split("%s")               # '<text>%s<text>' % self: str(self) = the translated __str__
+            r = self.generated(node, self.recv, "__str__", self.state(env), [])
+            if (r[1] if r[0] == "out" else r[0]) != "str":
+                bad(node, "__str__ of %s is not translated as text" % self.recv)
+            if r[0] == "out":
+                h = self.fresh()
+                self.hoist(node, ("bind", h, r[2]))
+            else:
+                h = r[1]
+            return ("str", "(append \"%s\"%%string (append %s \"%s\"%%string))" % (a, h, b))
+        if (isinstance(node, ast.BinOp) and isinstance(node.op, ast.Mod) and isinstance(node.left, ast.Constant) and isinstance(node.left.value, str)
+                and re.fullmatch(r"[ -$&-~]*%o", node.left.value) and '"' not in node.left.value):
+            e = self.int_(node.right, env)                   # '<text>%o' % e for an int e: the text followed by e in octal
+            return ("str", "(py_fmt_oct \"%s\"%%string %s)" % (node.left.value[:-2], e))
         return super().rhs(node, env)
+
+    def index_symbol(self, node):
+        """ieee.OUI_INDEX / ieee.IAB_INDEX inside a function that imports `ieee` from netaddr.eui: the Section variable of that name
+        (netaddr/eui/ieee.py must bind the name once at top level, by `NAME = {}`)"""
+        name = node.attr
+        imp = [st for st in ast.walk(self.mod.lookup(self.recv, self.pyname)[1]) if isinstance(st, ast.ImportFrom)] if self.recv else []
+        if not any(st.module == "netaddr.eui" and [(a.name, a.asname) for a in st.names] == [("ieee", None)] for st in imp) or self.mod.toplevel("ieee"):
+            bad(node, "ieee is not the module netaddr.eui.ieee imported inside this function")
+        CURFILE.append(SRCG_INDEX[name])
+        try:
+            m = Module(SRCG_INDEX[name])
+            ds = [a for a in m.tree.body for x in ast.walk(a) if isinstance(x, ast.Name) and x.id == name and isinstance(x.ctx, ast.Store)]
+            if not (len(ds) == 1 and isinstance(ds[0], ast.Assign) and len(ds[0].targets) == 1 and isinstance(ds[0].value, ast.Dict) and not ds[0].value.keys):
+                bad(ds[-1] if ds else None, "%s is not bound once, at top level, by `%s = {}`" % (name, name))
+        finally:
+            CURFILE.pop()
+        return name
+
+    def assign(self, s, env, go):
+        tgt = s.targets[0] if isinstance(s, ast.Assign) and len(s.targets) == 1 else None
+        if isinstance(tgt, ast.Tuple) and len(tgt.elts) == 2 and all(isinstance(x, ast.Name) for x in tgt.elts):
+            snap, pre0 = self.snapshot(), list(self.pre)
+            r = self.rhs(s.value, env)
+            ty = r[1] if r[0] == "out" else r[0]
+            if ty == "zpair":                                # (a, b) = <an (offset, size) pair>
+                pre, names = self.take_pre(), []
+                for x in tgt.elts:
+                    cn, env = self.bind_local(x, x.id, "int", env, s.value)
+                    names.append(cn)
+                return self.wrap(pre, ("let", pattern(names), r[1], go(env)))
+            if ty == "tuple" and r[0] == "out":              # a, b = <a translated method answering a tuple of ints>: ValueError unless 2
+                pre, names = self.take_pre(), []
+                for x in tgt.elts:
+                    cn, env = self.bind_local(x, x.id, "int", env, s.value)
+                    names.append(cn)
+                return self.wrap(pre, ("bind", pattern(names), "(do h0 <- %s; py_pair_of_list h0)" % r[2], go(env)))
+            self.restore(snap)
+            self.pre = pre0
+        return super().assign(s, env, go)
 
     def iana_key(self, node):
         """the literal key K of IANA_INFO[K]: one of the keys of the module-level dict literal IANA_INFO (bound once, each value {})"""
@@ -7883,6 +8182,71 @@ class FnG(FnE):
             if ty != "ikey":
                 bad(node, "dictionary item of kind %s" % show(ty))
             return ("ikey" if name == "__g_item_key" else "irec", t)
+        if name == "__g_file_read":
+            fname = srcc_strlit(node.args[0].value, node)
+            return ("str", "(REGISTRY_FILE %s %s %s)" % (fname, self.int_(node.args[1], env), self.int_(node.args[2], env)))
+        if name == "__g_rec_new":
+            items = [self.ex(x, env) for x in node.args]
+            want = ["int", "str", "str", "liststr", "int", "int"]
+            got = [("liststr" if is_list(ty) else ty) for ty, _ in items]
+            if got != want:
+                bad(node, "record literal with values of kinds %s" % got)
+            unify(node, items[3][0], ("list", Cell("str")), "address list of a record")
+            return ("orec", "(%s)" % ", ".join(t for _, t in items))
+        if name == "__g_rec_set":
+            (tr_, r), key = self.ex(node.args[0], env), node.args[1].value
+            keys = SRCG_REC_KEYS[self.recv]
+            if tr_ != "orec" or key not in keys or SRCG_REC_TYPES[keys.index(key)] != "int":
+                bad(node, "record[%r] = .. on %s" % (key, show(tr_)))
+            return ("orec", "(py_rec_set %s %d %s)" % (r, keys.index(key), self.int_(node.args[2], env)))
+        if name == "__g_parse_data":
+            d = self.tr.get(self.recv, "_parse_data", node)          # translated by the SRCF unit pysrc_euic_gen.v
+            if FILES.index(d.file) > FILES.index(self.file):
+                bad(node, "%s lives in a later file" % d.cname)
+            self.deps.add((self.recv, "_parse_data"))
+            self.depfns.append(d)
+            v = self.int_(node.args[0], env)
+            rest_ = node.args[(2 if self.recv == "IAB" else 1):]
+            args = [self.ex(x, env) for x in rest_]
+            want = [("str" if i == 0 else "int") for i in range(3)]
+            if [ty for ty, _ in args] != want or not d.outcome or len(d.params) != (3 if self.recv == "OUI" else 9):
+                bad(node, "unexpected shape of the translated %s._parse_data" % self.recv)
+            call = " ".join([d.cname, v] + [t for _, t in args])
+            if self.recv == "IAB":
+                rty, r = self.ex(node.args[1], env)
+                if rty != "orec":
+                    bad(node, "self.record is %s" % show(rty))
+                call = "let '(r_idx, r_id, r_org, r_address, r_offset, r_size) := %s in %s r_idx r_id r_org r_address r_offset r_size" % (r, call)
+            return ("out", "orec", "(%s)" % call)
+        if (isinstance(f, ast.Attribute) and dotted(f) == "self." + f.attr and (self.recv, f.attr) in SRCF_CLASSMETHODS and "self" not in env):
+            d = self.tr.get(self.recv, f.attr, node)                 # a classmethod that reads only class constants (SRCF_CLASSMETHODS)
+            names = [x.arg for x in d.f.args.args][1:]
+            given = dict(zip(names, node.args))
+            for kw in node.keywords:
+                if kw.arg is None or kw.arg in given or kw.arg not in names:
+                    bad(node, "unsupported keyword argument")
+                given[kw.arg] = kw.value
+            if len(node.args) > len(names) or set(given) != set(names) or len(d.params) != len(names):
+                bad(node, "argument list of %s" % d.cname)
+            self.deps.add((self.recv, f.attr))
+            self.depfns.append(d)
+            args = [self.ex(given[x], env) for x in names]
+            for (ty, _), (_, pty) in zip(args, d.params):
+                unify(node, ty, pty, "argument of %s" % d.cname)
+            term = "(%s)" % " ".join([d.cname] + [t for _, t in args])
+            return ("out", d.kind, term) if d.outcome else (d.kind, term)
+        if (isinstance(f, ast.Name) and name == "_is_int" and name not in env and self.mod.imports.get(name) == "netaddr.compat._is_int"
+                and len(node.args) == 1 and not node.keywords and compat_lambda_isinstance("_is_int")):
+            ty, _ = self.ex(node.args[0], env)                       # _is_int(x): decided by the type
+            if ty not in ("int", "str"):
+                bad(node, "_is_int of %s" % show(ty))
+            return ("bool", "true" if ty == "int" else "false")
+        if (name == "DictDotLookup" and name not in env and self.mod.imports.get(name) == "netaddr.core.DictDotLookup" and len(node.args) == 1
+                and not node.keywords):
+            ty, t = self.ex(node.args[0], env)               # DictDotLookup(d): the attribute view of the dict d, represented by d itself
+            if ty != "orec":
+                bad(node, "DictDotLookup of %s" % show(ty))
+            return (ty, t)
         if (isinstance(f, ast.Attribute) and isinstance(f.value, ast.Name) and f.value.id != "self" and not node.keywords
                 and env.get(f.value.id, ("",))[0] == "obj"):
             r = self.tr.modof("IPAddress").lookup("IPAddress", f.attr)      # x.m(..) for an IPAddress object x: the translated method
